@@ -54,3 +54,18 @@ reg("C04", "other",
     "counting successful writes; the reader parses two BE i32 per entry and its count formula composed with the writer's "
     "length formula is the identity; shape_count = index length, read_nth_shape_as is None iff i >= len and seeks to "
     "2*offset[i], size_hint forwards the index iterator's hint. 'Iteration = random access' is C14 + C15.")
+reg("C14", "other",
+    "finite-atom path rules on the abstract paths of ShapeIterator::next and ShapeReader::seek (E3)",
+    "On every abstract path of next(): a None result with an index possibly present passes through the index iterator being "
+    "exhausted; every path from an obtained index entry to the record read either carries 2*offset == counter or seeks to "
+    "Start(2*offset) and sets the counter; exactly one entry is consumed per item; random access seeks to the same expression. "
+    "The pinned tree violated the first clause (records dropped when index order differs from physical order); repaired in "
+    "/repo (b4da246). Not decided: that the record found at the offset decodes correctly (C03).")
+reg("C15", "other",
+    "typestate of the source position derived from the abstract paths of the reader's public methods (E4)",
+    "Position classes after each public method are derived from its last absolute seek/reads; checked: opening consumes "
+    "exactly 100 bytes, random access starts with an absolute seek and ends at byte 100, shape_count/header have no effect and "
+    "the index is never reassigned, Reader::seek forwards one index to both files, and R1: every state in which a new iteration "
+    "can start is at byte 100 or the iterator re-synchronises. R1 fails on the pinned tree after seek(k) and after a previous "
+    "iteration (three KNOWN-FINDING entries, defect D4: needs the reader to carry position state, not a small repair). Exact "
+    "item sequences are not decided.")
